@@ -221,12 +221,26 @@ def Flt.keep (f : Flt) (μ : Binding) : Bool :=
   | some t => if f.ne then t ≠ f.c else t = f.c
   | none => false
 
-/-- group = left-deep joins starting from the empty BGP, filter on top -/
+/-- a group of blocks = left-deep joins starting from the empty BGP -/
+def groupSols (d : WhereDS) (blocks : List Block) : List Binding :=
+  blocks.foldl (fun acc b => join acc (evalBlock d b)) [[]]
+
+/-- group, filter on top -/
 def evalWhere (d : WhereDS) (blocks : List Block) (flt : Option Flt) : List Binding :=
-  let sols := blocks.foldl (fun acc b => join acc (evalBlock d b)) [[]]
+  let sols := groupSols d blocks
   match flt with
   | some f => sols.filter f.keep
   | none => sols
+
+/-- shapes of WHERE clause whose solutions can repeat (solutions are a LIST: a multiset with an order) -/
+inductive WMode
+  | plain                          -- { blocks }
+  | union (bs : List Block)        -- { { blocks } UNION { bs } }      (`evalUnion`: one list after the other)
+  | proj (vs : List Nat)           -- { { SELECT vs WHERE { blocks } } } (`evalProject`: every row projected)
+  deriving Repr
+
+/-- `FrozenBindings.project` -/
+def project (vs : List Nat) (μ : Binding) : Binding := μ.filter (fun kv => decide (kv.1 ∈ vs))
 
 /-! ### templates (`_fillTemplate`) -/
 
@@ -314,11 +328,19 @@ structure Modify where
   named : List Nat
   where_ : List Block
   flt : Option Flt
+  wmode : WMode := .plain
 
+/-- the solutions of the WHERE clause, in the order and with the multiplicity `list(res)` has -/
 def Modify.solutions (c : Cfg) (u : Modify) (s : St) : List Binding :=
   let d := if u.using_.isEmpty && u.named.isEmpty then storeDataset c s u.withG
            else usingDataset s u.using_ u.named
-  evalWhere d u.where_ u.flt
+  let bag := match u.wmode with
+             | .plain => groupSols d u.where_
+             | .union bs => groupSols d u.where_ ++ groupSols d bs
+             | .proj vs => (groupSols d u.where_).map (project vs)
+  match u.flt with
+  | some f => bag.filter f.keep
+  | none => bag
 
 /-- the repaired `evalModify`: solutions first, every deletion, then every insertion -/
 def evalModify (c : Cfg) (u : Modify) (s : St) : St :=
@@ -445,6 +467,7 @@ def Op.needsDataset : Op → Bool
   | .modify u =>
     u.withG.isSome || !u.using_.isEmpty || !u.named.isEmpty ||
     u.where_.any (fun b => !b.1.isDflt) ||
+    (match u.wmode with | .union bs => bs.any (fun b => !b.1.isDflt) | _ => false) ||
     (match u.del with | some t => t.any (fun x => !x.2.isDflt) | none => false) ||
     (match u.ins with | some t => t.any (fun x => !x.2.isDflt) | none => false)
   | .clear _ t | .drop _ t => (match t with | .graph _ => true | _ => false)
